@@ -72,7 +72,8 @@ def _impl_matcher(case):
 def histories(tier):
     """generated histories of the matcher stream (method-focused), corpus first"""
     rng = core.Rng(core.seed(), 2)
-    n = 6000 if tier == "quick" else 60000
+    from harness import fingerprint
+    n = (6000 if tier == "quick" else 60000) * (fingerprint.boost("l2") if tier == "quick" else 1)
     cases = []
     for p in ("C01", "C02", "C03", "C09"):
         cases += corpus_cases(p)
